@@ -233,6 +233,42 @@ theorem k_send {env : Env} {s s' : State} {src dst : Addr} {d : Denom} {amt : Na
   have nm : ([Eff.xfer src dst d amt]).all (fun x => !x.mints p.lpt) = true := by simp [Eff.mints]
   exact kProp_of_mono (no_debit_mono _ _ _ _ hb nd _) (no_debit_mono _ _ _ _ hb nd _) (no_mint_supply_le _ _ _ _ hb nm)
 
+/-- the onboarding auto-swap (keeper-level buy of the standard coin, payer = recipient) -/
+theorem k_autoSwap {env : Env} {s s' : State} {rcpt : Addr} {dIn : Denom} {maxIn out : Nat} {r : Resp}
+    (hE : EnvOK env) (hW : WF env s) (hS : SignerOK s (.autoSwap rcpt dIn maxIn out))
+    (h : step env s (.autoSwap rcpt dIn maxIn out) = .ok (s', r)) : ∀ p ∈ s.pools, KProp s s' p := by
+  simp only [step] at h
+  obtain ⟨⟨sold, bought, esc⟩, ht, h⟩ := bind_ok h
+  simp only at h
+  obtain ⟨b, hb, h⟩ := bind_ok h
+  injection h with h; simp only [Prod.mk.injEq] at h
+  obtain ⟨rfl, _⟩ := h
+  intro p hp
+  obtain ⟨q, hpf, hbo, _⟩ := trade_buy_ok ht
+  obtain ⟨hne, hone, hfind, hres, _⟩ := poolFor_ok hpf
+  obtain ⟨hqmem, hqc⟩ := mem_of_poolByCounter hfind
+  have hqesc : q.escrow = esc := by
+    have := hW.reserveOk q hqmem
+    rw [hres] at this; injection this with this; exact this.symm
+  have hse : rcpt ≠ esc := by rw [← hqesc]; exact hS _ rfl q hqmem
+  have hdne : dIn ≠ s.std := fun e => hne e.symm
+  obtain ⟨f1, f2, f3, f4, f5⟩ := swapEffs_flow hb hse hdne
+  by_cases hpq : p = q
+  · subst hpq
+    intro _ _
+    simp only
+    rw [f5 p.lpt, hqesc]
+    have key := trade_k ht (b.get esc dIn) (b.get esc s.std) f1 f2
+    have hc : p.counter = dIn := by
+      rw [hqc]; unfold counterOf; simp
+    rw [hc]
+    have : s.bank.get esc s.std * s.bank.get esc dIn ≤ b.get esc s.std * b.get esc dIn := by
+      rw [Nat.mul_comm, Nat.mul_comm (b.get esc s.std)]; exact key
+    exact Nat.mul_le_mul_right _ this
+  · have hne' : p.escrow ≠ esc := by rw [← hqesc]; exact hW.escrow_ne hE hp hqmem hpq
+    have hns : p.escrow ≠ rcpt := fun e => hS _ rfl p hp e.symm
+    exact kProp_of_mono (f4 _ _ hns hne') (f4 _ _ hns hne') (Nat.le_of_eq (f5 _))
+
 /-- **C01, one step.** Every successful operation leaves `X·Y/L²` of every existing pool no smaller. -/
 theorem k_step {env : Env} {s s' : State} {op : Op} {r : Resp} (hE : EnvOK env) (hW : WF env s)
     (hS : SignerOK s op) (h : step env s op = .ok (s', r)) : ∀ p ∈ s.pools, KProp s s' p := by
@@ -241,6 +277,7 @@ theorem k_step {env : Env} {s s' : State} {op : Op} {r : Resp} (hE : EnvOK env) 
   | add m => exact k_add hE hW hS h
   | remove m => exact k_remove hE hW hS h
   | send src dst d amt => exact k_send hS h
+  | autoSwap rcpt dIn maxIn out => exact k_autoSwap hE hW hS h
   | setParams p =>
     simp only [step] at h
     obtain ⟨_, _, h⟩ := bind_ok h
@@ -265,6 +302,12 @@ theorem k_step_monitor {env : Env} {s s' : State} {op : Op} {r : Resp} (hE : Env
     | remove m => obtain ⟨F⟩ := remove_ok h; rw [F.hState]
     | send src dst d amt =>
       simp only [step] at h
+      obtain ⟨b, _, h⟩ := bind_ok h
+      injection h with h; simp only [Prod.mk.injEq] at h; rw [← h.1]
+    | autoSwap rcpt dIn maxIn out =>
+      simp only [step] at h
+      obtain ⟨⟨sold, bought, esc⟩, _, h⟩ := bind_ok h
+      simp only at h
       obtain ⟨b, _, h⟩ := bind_ok h
       injection h with h; simp only [Prod.mk.injEq] at h; rw [← h.1]
     | setParams p =>
@@ -312,6 +355,12 @@ theorem std_pools_step {env : Env} {s s' : State} {op : Op} {r : Resp} (h : step
     | live pool stdIn mint deposit hSome hAcct hL hRoom hAmts hMin hMax hPlan => rw [hPlan]; exact fun _ h => h
   | send src dst d amt =>
     simp only [step] at h
+    obtain ⟨b, _, h⟩ := bind_ok h
+    injection h with h; simp only [Prod.mk.injEq] at h; rw [← h.1]; exact ⟨rfl, fun _ h => h⟩
+  | autoSwap rcpt dIn maxIn out =>
+    simp only [step] at h
+    obtain ⟨⟨sold, bought, esc⟩, _, h⟩ := bind_ok h
+    simp only at h
     obtain ⟨b, _, h⟩ := bind_ok h
     injection h with h; simp only [Prod.mk.injEq] at h; rw [← h.1]; exact ⟨rfl, fun _ h => h⟩
   | setParams p =>
